@@ -171,6 +171,9 @@ CallEnd(ev) ==
        \* an initialising function needs a variable that is not live (a second init would orphan the first block)
        /\ (sg.life \in {"+", "+?"}) => (IF IsZ(ks[1]) THEN ~zs[ev.a[1]].live ELSE IF IsQ(ks[1]) THEN ~qs[ev.a[1]].live
                                            ELSE IF IsF(ks[1]) THEN ~fs[ev.a[1]].live ELSE ~rs[ev.a[1]].live)
+       \* the NULL-terminated list forms (mpz_inits ...) initialise every listed variable; the lists are duplicate free
+       /\ (sg.life = "+*") => \A k \in 1..n : /\ (IsZ(ks[k]) => ~zs[ev.a[k]].live) /\ (IsQ(ks[k]) => ~qs[ev.a[k]].live) /\ (IsF(ks[k]) => ~fs[ev.a[k]].live)
+                                                /\ \A k2 \in 1..n : k2 # k => ev.a[k2] # ev.a[k]
        \* inputs must be live variables
        /\ \A k \in 1..n : /\ (IsIn(ks[k]) /\ IsZ(ks[k])) => zs[ev.a[k]].live
                           /\ (IsIn(ks[k]) /\ IsQ(ks[k])) => qs[ev.a[k]].live
